@@ -447,8 +447,11 @@ func c9pools() []c9pool {
 	three := c9design([]int{1, 1, 1})
 	lib := c9design([]int{2, 1})
 	fd := append([]c9frag{two[0], two[1].flip()}, c9frag{c9overhangs[0], "ACGGCA", "TTGC"})
+	// the same two-fragment ring with bodies long enough for constructs of more than 128 bases
+	long := []c9frag{{c9overhangs[0], "AC" + strings.Repeat("TTACATCATA", 7) + "CA", c9overhangs[1]}, {c9overhangs[1], "ACA" + strings.Repeat("TACTTACAAT", 7) + "CCA", c9overhangs[0]}}
 	return []c9pool{
 		{"2-ring", two, -1, -1},
+		{"2-ring-long-bodies", long, -1, -1},
 		{"2-ring-library", lib, 1, 2},
 		{"2-ring-flipped+decoy", fd, -1, -1},
 		{"3-ring", three, 1, 3},
